@@ -851,6 +851,51 @@ _install_mf_ops()
 # operations used by torch.optim's single-tensor functions (shadow-executed as the oracle of C02)
 
 
+# Answer of the "am I being traced by PT2?" predicates (torch.compiler.is_compiling, torch.compiler.is_dynamo_compiling,
+# torch._dynamo.is_compiling, torch._utils.is_compiling) while real code runs on proxies:
+#   None  -> False (eager; every check except C18)
+#   "sym" -> one symbolic boolean `is_compiling`, constant during a run: a path that asks forks, so every obligation is
+#            discharged for the eager AND the traced answer (C18 mode-independence tier).
+COMPILE_MODE = None
+COMPILE_MODE_USED = False  # set once a run in this process asked for the symbolic answer (counter-models then report it)
+
+
+class compile_mode:
+    def __init__(self, mode):
+        self.mode = mode
+
+    def __enter__(self):
+        global COMPILE_MODE, COMPILE_MODE_USED
+        self.saved = COMPILE_MODE
+        COMPILE_MODE = self.mode
+        COMPILE_MODE_USED = COMPILE_MODE_USED or self.mode == "sym"
+
+    def __exit__(self, *a):
+        global COMPILE_MODE
+        COMPILE_MODE = self.saved
+        return False
+
+
+def in_disabled_region():
+    """True while (dynamically) inside a function decorated with torch.compiler.disable: there the code runs eagerly even when
+    the caller is being traced, so the predicates answer False (recognised by the frame of Dynamo's real disable wrapper)."""
+    import sys
+    f = sys._getframe(1)
+    while f is not None:
+        co = f.f_code
+        if co.co_name == "_fn" and co.co_filename.replace("\\", "/").endswith("torch/_dynamo/eval_frame.py"):
+            return True
+        f = f.f_back
+    return False
+
+
+def _is_compiling():
+    if COMPILE_MODE == "sym" and not in_disabled_region():
+        from .sym import SymBool
+        return SymBool(z3.Bool("is_compiling"))
+    return False
+
+
 class _NS:
     def __init__(self, **kw):
         self.__dict__.update(kw)
@@ -878,7 +923,11 @@ def _install_optim_ops():
     def init(self_):
         old_init(self_)
         object.__setattr__(self_, "jit", _NS(is_scripting=lambda: False))
-        object.__setattr__(self_, "_utils", _NS(is_compiling=lambda: False))
+        object.__setattr__(self_, "_utils", _NS(is_compiling=_is_compiling))
+        object.__setattr__(self_, "_dynamo", _NS(is_compiling=_is_compiling))
+        real_c = self_._real.compiler
+        object.__setattr__(self_, "compiler", _NS(is_compiling=_is_compiling, is_dynamo_compiling=_is_compiling, disable=real_c.disable,
+                                                   allow_in_graph=getattr(real_c, "allow_in_graph", None), is_exporting=lambda: False))
 
     FakeTorch.__init__ = init
 
